@@ -120,3 +120,448 @@ Proof.
   - intros i vi. rewrite Hvals. destruct (decide (i = id)) as [->|Hne]; [rewrite lookup_insert; intros [= <-]; exact Hzero|].
     rewrite lookup_insert_ne by auto. apply (qi_zero _ HQ).
 Qed.
+
+(* QI depends on the records, the queue only *)
+Lemma QI_ext s s' : vals s' = vals s -> ubq s' = ubq s -> QI s -> QI s'.
+Proof. intros Hv Hq [A B C]. constructor; intros *; rewrite ?Hv, ?Hq; eauto. Qed.
+
+Lemma queued_ext s s' id : ubq s' = ubq s -> queued s' id <-> queued s id.
+Proof. intros Hq. unfold queued. rewrite Hq. tauto. Qed.
+
+(* ---- Slash, Jail, Unjail ---- *)
+Lemma slash_QI c k p f c' : SI (stk c) -> QI (stk c) -> slash c k p f = Some c' -> QI (stk c').
+Proof.
+  intros HS HQ. unfold slash. destruct (f <? 0); [discriminate|].
+  destruct (by_cons (stk c) !! k) as [id|]; [|intros [= <-]; exact HQ].
+  destruct (vals (stk c) !! id) as [v|] eqn:Hv; [|intros [= <-]; exact HQ].
+  destruct (status_eqb (v_status v) Unbonded); [discriminate|].
+  set (burn := Z.max 0 (Z.min (p * power_reduction * f / dec_one) (v_tokens v))).
+  destruct (burn =? 0); [intros [= <-]; exact HQ|].
+  destruct (if status_eqb (v_status v) Bonded then _ else _); [|discriminate]. intros [= <-]. cbn.
+  change (QI (rekey (stk c) id v (set_tokens v (v_tokens v - burn)))).
+  eapply QI_insert; [exact HQ|apply rekey_vals|apply rekey_other| |].
+  - left. exists v. repeat split; auto.
+  - cbn. intros Hz. pose proof (qi_zero _ HQ id v Hv Hz). subst burn. lia.
+Qed.
+
+Lemma jail_QI s k s' : QI s -> jail s k = Some s' -> QI s'.
+Proof.
+  intros HQ. unfold jail. destruct (by_cons s !! k) as [id|]; [|discriminate]. destruct (vals s !! id) as [v|] eqn:Hv; [|discriminate].
+  destruct (v_jailed v); [discriminate|]. intros [= <-].
+  eapply QI_insert; [exact HQ|reflexivity|reflexivity| |].
+  - left. exists v. repeat split; auto.
+  - cbn. apply (qi_zero _ HQ id v Hv).
+Qed.
+
+Lemma unjail_QI s k s' : QI s -> unjail s k = Some s' -> QI s'.
+Proof.
+  intros HQ. unfold unjail. destruct (by_cons s !! k) as [id|]; [|discriminate]. destruct (vals s !! id) as [v|] eqn:Hv; [|discriminate].
+  destruct (negb _); [discriminate|]. intros [= <-].
+  eapply QI_insert; [exact HQ| | | |].
+  - unfold set_index, set_validator. cbn. reflexivity.
+  - unfold set_index, set_validator. cbn. reflexivity.
+  - left. exists v. repeat split; auto.
+  - cbn. apply (qi_zero _ HQ id v Hv).
+Qed.
+
+Lemma handle_signature_QI c k p sg c' : CI c -> QI (stk c) -> handle_signature c k p sg = Some c' -> QI (stk c').
+Proof.
+  intros [HS HP] HQ. unfold handle_signature. destruct (by_cons (stk c) !! k) as [id|]; [|discriminate].
+  destruct (vals (stk c) !! id) as [v|]; [|discriminate]. destruct (v_jailed v); [intros [= <-]; exact HQ|].
+  destruct (infos (sl c) !! k) as [i|]; [|discriminate].
+  destruct (if negb _ && negb sg then _ else _) as [bm' cnt].
+  destruct (_ && _).
+  - destruct (slash c k p _) as [c1|] eqn:Es; [|discriminate]. destruct (jail (stk c1) k) as [s2|] eqn:Ej; [|discriminate].
+    intros [= <-]. cbn. eapply jail_QI; [|exact Ej]. eapply slash_QI; eauto.
+  - intros [= <-]. exact HQ.
+Qed.
+
+Lemma handle_votes_QI votes absent c c' : CI c -> QI (stk c) -> handle_votes votes absent c = Some c' -> QI (stk c').
+Proof.
+  revert c. induction votes as [|[k p] vs IH]; cbn; intros c HCI HQ; [intros [= <-]; exact HQ|].
+  destruct (handle_signature c k p _) as [c1|] eqn:E; [|discriminate].
+  apply IH; [eapply handle_signature_CI; eauto|eapply handle_signature_QI; eauto].
+Qed.
+
+Lemma begin_block_QI c votes absent c' : CI c -> QI (stk c) -> begin_block c votes absent = inl c' -> QI (stk c').
+Proof.
+  intros HCI HQ. unfold begin_block. destruct (_ && _); [discriminate|]. destruct (handle_votes votes absent c) as [c1|] eqn:E; [|discriminate].
+  intros [= <-]. pose proof (handle_votes_QI _ _ _ _ HCI HQ E) as H1. unfold poa_begin_block. destruct (1 <? height c1); exact H1.
+Qed.
+
+(* ---- SetPOAPower on a validator that is not queued ---- *)
+Lemma set_poa_power_QI c val n c' :
+  SI (stk c) -> QI (stk c) -> ~ queued (stk c) val -> 0 <= n -> set_poa_power c val n = MOk c' -> QI (stk c').
+Proof.
+  intros HS HQ Hnq Hn. unfold set_poa_power.
+  destruct (vals (stk c) !! val) as [v|] eqn:Hv; [|discriminate]. destruct (_ =? _); [discriminate|].
+  set (v2 := set_status (set_shares (set_tokens (set_tokens v n) n) (n * dec_one)) Bonded).
+  assert (Hz2 : v_shares v2 = 0 -> v_tokens v2 <= 0) by (cbn; unfold dec_one; lia).
+  destruct (_ && _).
+  - destruct (slash _ _ _ _) as [c2|] eqn:Es; [|discriminate]. cbn [mbind].
+    intros H. apply update_validator_set_spec in H as (Hvals & _ & _ & _ & _ & Hubq & _). cbn in Hvals, Hubq.
+    assert (HS1 : SI (del_index (stk c) val v)) by (apply SI_del_index; exact HS).
+    assert (HQ1 : QI (del_index (stk c) val v)) by (eapply QI_ext; [| |exact HQ]; reflexivity).
+    pose proof (slash_QI (with_stk c (del_index (stk c) val v)) _ _ _ _ HS1 HQ1 Es) as HQ2.
+    pose proof (slash_frame _ _ _ _ _ Es) as (_ & _ & _ & _ & _ & _ & _ & Hubq2 & _). cbn in Hubq2.
+    eapply QI_insert with (s := del_index (stk c2) val (set_tokens v n)) (v' := v2);
+      [eapply QI_ext; [| |exact HQ2]; reflexivity|exact Hvals|exact Hubq| |exact Hz2].
+    right. intros Hq. apply Hnq. revert Hq. unfold queued. cbn. rewrite Hubq2. tauto.
+  - cbn [mbind]. intros H. apply update_validator_set_spec in H as (Hvals & _ & _ & _ & _ & Hubq & _). cbn in Hvals, Hubq.
+    eapply QI_insert with (s := stk c) (v' := v2); [exact HQ| | | |exact Hz2].
+    + rewrite Hvals. unfold set_index, del_index. cbn. destruct (v_jailed v); reflexivity.
+    + rewrite Hubq. unfold set_index, del_index. cbn. destruct (v_jailed v); reflexivity.
+    + right; exact Hnq.
+Qed.
+
+Lemma accept_QI c p c' : QI (stk c) -> vals (stk c) !! p_oper p = None -> accept_new_validator c p = MOk c' -> QI (stk c').
+Proof.
+  intros HQ Hnv. unfold accept_new_validator. intros H. apply update_bonded_pool_stk in H as (Hs & _). rewrite Hs. cbn.
+  eapply QI_insert with (s := stk c); [exact HQ|reflexivity|reflexivity| |].
+  - right. eapply no_record_not_queued; eauto.
+  - cbn. lia.
+Qed.
+
+(* ---- message level ---- *)
+Lemma exec_msg_QI c m c' : CI c -> QI (stk c) -> exec_msg c m = MOk c' -> QI (stk c').
+Proof.
+  intros [HS HP] HQ. destruct m as [s v p u|s v|s v|v k mon r mx ch msd|s p|v|s|s t]; cbn.
+  - unfold msg_set_power. destruct (negb (is_admin s)); [discriminate|].
+    destruct (setpower_validate (0 <=? v) p) as [[]|] eqn:Ev; [|discriminate].
+    destruct (find_pending v (pending (poa c))) as [q|] eqn:Ef.
+    + apply find_pending_in in Ef as [Hin Hop]. destruct (accept_new_validator c q) as [c1|] eqn:Ea; [|discriminate]. cbn [mbind].
+      destruct (accept_SI_PI _ _ _ HS HP Hin Ea) as [HS1 HP1].
+      assert (Hnv : vals (stk c) !! p_oper q = None) by (apply (pi_not_val _ HP); exact Hin).
+      pose proof (accept_QI _ _ _ HQ Hnv Ea) as HQ1.
+      destruct (set_poa_power c1 v (cast_i64 p)) as [c2|] eqn:E2; [|discriminate]. cbn [mbind].
+      assert (HQ2 : QI (stk c2)).
+      { eapply (set_poa_power_QI c1 v (cast_i64 p) c2); [exact HS1|exact HQ1| |exact (cast_i64_of_valid v p Ev)|exact E2].
+        (* the freshly accepted validator is Unbonded, hence not queued *)
+        subst v. unfold accept_new_validator in Ea. apply update_bonded_pool_stk in Ea as (Hs1 & _).
+        eapply not_unbonding_not_queued; [exact HQ1|rewrite Hs1; cbn; apply lookup_insert|cbn; discriminate]. }
+      destruct (negb u && (1 <? height c2)).
+      * destruct (_ =? 0); [discriminate|]. destruct (30 <=? _); [discriminate|]. intros H. apply update_bonded_pool_stk in H as (-> & _). exact HQ2.
+      * intros H. apply update_bonded_pool_stk in H as (-> & _). exact HQ2.
+    + destruct (ensure_active c v) as [c1|] eqn:Ee; [|discriminate]. cbn [mbind].
+      pose proof Ee as Ee'. apply ensure_active_id in Ee' as ->.
+      assert (Hnq : ~ queued (stk c) v).
+      { unfold ensure_active in Ee. destruct (vals (stk c) !! v) as [vv|] eqn:Hv; [|discriminate]. destruct (v_jailed vv); [discriminate|].
+        destruct (v_status vv) eqn:Est; cbn in Ee; try discriminate. eapply not_unbonding_not_queued; eauto. congruence. }
+      destruct (set_poa_power c v (cast_i64 p)) as [c2|] eqn:E2; [|discriminate]. cbn [mbind].
+      pose proof (set_poa_power_QI _ _ _ _ HS HQ Hnq (cast_i64_of_valid v p Ev) E2) as HQ2.
+      destruct (negb u && (1 <? height c2)).
+      * destruct (_ =? 0); [discriminate|]. destruct (30 <=? _); [discriminate|]. intros H. apply update_bonded_pool_stk in H as (-> & _). exact HQ2.
+      * intros H. apply update_bonded_pool_stk in H as (-> & _). exact HQ2.
+  - unfold msg_remove_validator. destruct (if is_admin s then None else _); [discriminate|]. destruct (_ =? 0); [discriminate|].
+    destruct (vals (stk c) !! v) as [vv|] eqn:Hv; [|discriminate]. destruct (v_status vv) eqn:Est; cbn; try discriminate.
+    destruct (set_poa_power c v 0) as [c1|] eqn:E; [|discriminate]. cbn [mbind].
+    intros H. apply update_bonded_pool_stk in H as (-> & _). cbn.
+    eapply (set_poa_power_QI c v 0 c1); [exact HS|exact HQ| |lia|exact E]. eapply not_unbonding_not_queued; eauto. congruence.
+  - unfold msg_remove_pending. destruct (negb _); [discriminate|]. intros [= <-]. exact HQ.
+  - destruct r as [r|], mx as [mx|], ch as [ch|]; try discriminate.
+    unfold msg_create_validator. destruct (poa_create_validate _); try discriminate. destruct (_ <? _); [discriminate|].
+    destruct (bool_decide _); [discriminate|]. destruct (bool_decide _); [discriminate|]. destruct (pending_conflict _ _ _); [discriminate|].
+    destruct (negb _); [discriminate|]. intros H. apply update_bonded_pool_stk in H as (-> & _). exact HQ.
+  - unfold msg_update_params. destruct (negb _); [discriminate|]. destruct (negb _); [discriminate|]. destruct (negb _); [discriminate|].
+    intros [= <-]. eapply QI_ext; [| |exact HQ]; reflexivity.
+  - unfold msg_unjail. destruct (vals (stk c) !! v) as [vv|]; [|discriminate]. destruct (dels (stk c) !! v); [|discriminate].
+    destruct (_ =? 0); [discriminate|]. destruct (_ <? _); [discriminate|]. destruct (negb _); [discriminate|].
+    destruct (match infos _ !! _ with Some _ => _ | None => _ end); [discriminate|].
+    destruct (unjail (stk c) (v_cons vv)) as [s'|] eqn:E; [|discriminate]. intros [= <-]. cbn. eapply unjail_QI; eauto.
+  - intros [= <-]. exact HQ.
+  - intros [= <-]. exact HQ.
+Qed.
+
+Lemma exec_msgs_QI ms c c' : CI c -> QI (stk c) -> exec_msgs c ms = MOk c' -> QI (stk c').
+Proof.
+  revert c. induction ms as [|m ms IH]; cbn; intros c HCI HQ; [intros [= <-]; exact HQ|].
+  destruct (exec_msg c m) as [c1|] eqn:E; [|discriminate]. cbn. apply IH; [eapply exec_msg_CI; eauto|eapply exec_msg_QI; eauto].
+Qed.
+
+Lemma deliver_tx_QI c tx : CI c -> QI (stk c) -> QI (stk (fst (deliver_tx c tx))).
+Proof.
+  intros HCI HQ. unfold deliver_tx. destruct (cur_stk_decorator _ _); [exact HQ|]. destruct (cur_wd_decorator _ _); [exact HQ|].
+  destruct (cur_comm_decorator _ _ _ _ _); try exact HQ.
+  destruct (existsb is_tree tx); [exact HQ|].
+  destruct (exec_msgs _ tx) as [c2|] eqn:E; [|exact HQ]. cbn.
+  eapply exec_msgs_QI; [| |exact E]; [apply CI_seqs; exact HCI|exact HQ].
+Qed.
+
+Lemma deliver_txs_QI txs c : CI c -> QI (stk c) -> QI (stk (fst (deliver_txs c txs))).
+Proof.
+  revert c. induction txs as [|tx txs IH]; cbn; intros c HCI HQ; [exact HQ|].
+  pose proof (deliver_tx_QI c tx HCI HQ) as Q1. pose proof (deliver_tx_CI c tx HCI) as H1. destruct (deliver_tx c tx) as [c1 o]. cbn in *.
+  specialize (IH c1 H1 Q1). destruct (deliver_txs c1 txs) as [c2 os]. exact IH.
+Qed.
+
+(* ---- maturity ---- *)
+Lemma QI_remove s s' id v :
+  QI s -> vals s !! id = Some v ->
+  vals s' = delete id (vals s) -> ubq s' = ubq_delete (v_ubtime v) (v_ubheight v) id (ubq s) ->
+  QI s'.
+Proof.
+  intros HQ Hv Hvals Hq. constructor.
+  - intros t h ids i. rewrite Hq, Hvals. intros Hslot Hin.
+    assert (i <> id) by (intros ->; eapply ubq_delete_unqueues; eauto).
+    rewrite lookup_delete_ne by auto. apply ubq_delete_lookup in Hslot as [[Hne Hl]|[Heq ->]].
+    + eapply (qi_sound _ HQ); eauto.
+    + inversion Heq; subst. apply filter_neq_in in Hin as [Hin _]. destruct (ubq s !! (v_ubtime v, v_ubheight v)) as [ids0|] eqn:E; [|destruct Hin].
+      eapply (qi_sound _ HQ); eauto.
+  - intros t h ids. rewrite Hq. intros Hslot. apply ubq_delete_lookup in Hslot as [[Hne Hl]|[Heq ->]].
+    + eapply (qi_nodup _ HQ); eauto.
+    + destruct (ubq s !! (v_ubtime v, v_ubheight v)) as [ids0|] eqn:E; cbn; [|constructor].
+      apply List.NoDup_filter. eapply (qi_nodup _ HQ); eauto.
+  - intros i vi. rewrite Hvals. destruct (decide (i = id)) as [->|Hne]; [rewrite lookup_delete; discriminate|].
+    rewrite lookup_delete_ne by auto. apply (qi_zero _ HQ).
+Qed.
+
+Lemma ubq_delete_other q t h id k : k <> (t, h) -> ubq_delete t h id q !! k = q !! k.
+Proof.
+  intros Hne. unfold ubq_delete. destruct (filter _ _); [apply lookup_delete_ne|apply lookup_insert_ne]; congruence.
+Qed.
+
+Lemma ubq_delete_keeps q t h id L x :
+  q !! (t, h) = Some L -> In x L -> x <> id -> exists L', ubq_delete t h id q !! (t, h) = Some L' /\ In x L'.
+Proof.
+  intros Hq Hin Hne. unfold ubq_delete. rewrite Hq. cbn.
+  assert (Hf : In x (filter (fun y => negb (y =? id)) L)) by (apply filter_neq_in; auto).
+  destruct (filter _ L) as [|a l] eqn:E; [destruct Hf|]. exists (a :: l). split; [apply lookup_insert|exact Hf].
+Qed.
+
+Lemma mature_ids_ok ids : forall c t h,
+  QI (stk c) -> List.NoDup ids ->
+  (forall id, In id ids -> exists L, ubq (stk c) !! (t, h) = Some L /\ In id L) ->
+  exists c', mature_ids ids c = Some c' /\ QI (stk c') /\ (forall k, k <> (t, h) -> ubq (stk c') !! k = ubq (stk c) !! k).
+Proof.
+  induction ids as [|id rest IH]; intros c t h HQ Hnd Hall; cbn [mature_ids].
+  - exists c. auto.
+  - inversion Hnd as [|? ? Hnotin Hnd']; subst.
+    destruct (Hall id (or_introl eq_refl)) as (L & HL & HinL).
+    destruct (qi_sound _ HQ t h L id HL HinL) as (v & Hv & Hst & Ht & Hh).
+    rewrite Hv, Hst. cbn [status_eqb negb].
+    set (v' := set_status v Unbonded).
+    assert (Hrest : forall s3, ubq s3 = ubq_delete t h id (ubq (stk c)) ->
+              forall id', In id' rest -> exists L', ubq s3 !! (t, h) = Some L' /\ In id' L').
+    { intros s3 Hs3 id' Hin'. destruct (Hall id' (or_intror Hin')) as (L0 & HL0 & Hin0). rewrite HL in HL0. inversion HL0; subst L0.
+      rewrite Hs3. eapply ubq_delete_keeps; eauto. intros ->. contradiction. }
+    destruct (v_shares v' =? 0) eqn:Esh.
+    + assert (Htok : v_tokens v <= 0) by (apply (qi_zero _ HQ id v Hv); cbn in Esh; lia).
+      replace (0 <? v_tokens v') with false by (cbn; lia).
+      match goal with |- exists c', mature_ids rest (with_stk c ?x) = _ /\ _ => set (s3 := x) end.
+      assert (HQ3 : QI s3).
+      { eapply (QI_remove (stk c) s3 id v HQ Hv); subst s3; cbn; [apply delete_insert_delete|]. subst v'. cbn. rewrite Ht, Hh. reflexivity. }
+      destruct (IH (with_stk c s3) t h HQ3 Hnd') as (c' & Hm & HQ' & Hk).
+      { apply Hrest. subst s3 v'. cbn. rewrite Ht, Hh. reflexivity. }
+      exists c'. split; [exact Hm|]. split; [exact HQ'|]. intros k Hne. rewrite (Hk k Hne). subst s3 v'. cbn. rewrite Ht, Hh. apply ubq_delete_other; exact Hne.
+    + match goal with |- exists c', mature_ids rest (with_stk c ?x) = _ /\ _ => set (s3 := x) end.
+      assert (HQ3 : QI s3).
+      { eapply (QI_leave_queue (stk c) s3 id v v' HQ Hv); subst s3; cbn; [reflexivity| |].
+        - subst v'. cbn. rewrite Ht, Hh. reflexivity.
+        - intros Hz. cbn in Esh. lia. }
+      destruct (IH (with_stk c s3) t h HQ3 Hnd') as (c' & Hm & HQ' & Hk).
+      { apply Hrest. subst s3 v'. cbn. rewrite Ht, Hh. reflexivity. }
+      exists c'. split; [exact Hm|]. split; [exact HQ'|]. intros k Hne. rewrite (Hk k Hne). subst s3 v'. cbn. rewrite Ht, Hh. apply ubq_delete_other; exact Hne.
+Qed.
+
+Lemma mature_slots_ok slots : forall c,
+  QI (stk c) -> List.NoDup (map fst slots) ->
+  (forall t h ids, In (t, h, ids) slots -> ubq (stk c) !! (t, h) = Some ids) ->
+  exists c', mature_slots slots c = Some c' /\ QI (stk c').
+Proof.
+  induction slots as [|[[t h] ids] rest IH]; intros c HQ Hnd Hall; cbn [mature_slots].
+  - exists c. auto.
+  - cbn in Hnd. inversion Hnd as [|? ? Hnotin Hnd']; subst.
+    destruct ((t <=? now c) && (h <=? height c)).
+    + pose proof (Hall t h ids (or_introl eq_refl)) as Hslot.
+      destruct (mature_ids_ok ids c t h HQ (qi_nodup _ HQ t h ids Hslot)) as (c1 & Hm & HQ1 & Hk).
+      { intros id Hin. exists ids. auto. }
+      rewrite Hm. apply IH; [exact HQ1|exact Hnd'|].
+      intros t' h' ids' Hin'. rewrite Hk; [apply Hall; right; exact Hin'|].
+      intros Heq. apply Hnotin. rewrite <- Heq. change (t', h') with (fst (t', h', ids')). apply in_map. exact Hin'.
+    + apply IH; [exact HQ|exact Hnd'|]. intros t' h' ids' Hin'. apply Hall. right; exact Hin'.
+Qed.
+
+Lemma unbond_all_mature_ok c : QI (stk c) -> exists c', unbond_all_mature c = Some c' /\ QI (stk c').
+Proof.
+  intros HQ. unfold unbond_all_mature, sorted_slots. apply mature_slots_ok; [exact HQ| |].
+  - eapply Permutation_NoDup; [apply Permutation_map; symmetry; apply sort_by_perm|].
+    rewrite map_fmap. apply NoDup_ListNoDup. apply NoDup_fst_map_to_list.
+  - intros t h ids Hin. apply (Permutation_in _ (sort_by_perm slot_le _)) in Hin.
+    apply elem_of_list_In in Hin. apply (elem_of_map_to_list (ubq (stk c)) (t, h) ids) in Hin. exact Hin.
+Qed.
+
+(* ---- EndBlocker loops ---- *)
+Lemma bond_validator_QI c id v : QI (stk c) -> vals (stk c) !! id = Some v -> QI (stk (fst (bond_validator c id v))).
+Proof.
+  intros HQ Hv. unfold bond_validator. cbn.
+  eapply (QI_leave_queue (stk c) _ id v (set_status v Bonded) HQ Hv).
+  - unfold set_index, set_validator, del_index. cbn. destruct (v_jailed v); reflexivity.
+  - unfold set_index, set_validator, del_index. cbn. destruct (v_jailed v); reflexivity.
+  - cbn. apply (qi_zero _ HQ id v Hv).
+Qed.
+
+Lemma apply_loop_QI keys maxv a a' :
+  QI (stk (la_chain a)) -> apply_loop keys maxv a = LDone a' -> QI (stk (la_chain a')).
+Proof.
+  revert a. induction keys as [|[p id] ks IH]; intros a HQ; cbn [apply_loop]; [intros [= <-]; exact HQ|].
+  destruct (maxv <=? la_count a); [intros [= <-]; exact HQ|].
+  destruct (vals (stk (la_chain a)) !! id) as [v|] eqn:Hv; [|discriminate].
+  destruct (v_jailed v); [apply IH; exact HQ|].
+  destruct (v_power v =? 0); [intros [= <-]; exact HQ|].
+  set (r := match v_status v with Bonded => (la_chain a, v, 0) | _ => let '(c', v') := bond_validator (la_chain a) id v in (c', v', v_tokens v') end).
+  assert (Hr : exists c1 v1 moved, r = (c1, v1, moved) /\ QI (stk c1)).
+  { subst r. pose proof (bond_validator_QI _ id v HQ Hv) as Hb.
+    destruct (v_status v); [destruct (bond_validator (la_chain a) id v) as [c' v'']; cbn in Hb; do 3 eexists; split; [reflexivity|exact Hb]..|].
+    do 3 eexists; split; [reflexivity|exact HQ]. }
+  destruct Hr as (c1 & v1 & moved & -> & HQ1). cbn zeta.
+  apply IH. cbn [la_chain].
+  destruct (match la_last a !! id with Some old => negb (old =? v_power v1) | None => true end); [|exact HQ1].
+  eapply QI_ext; [| |exact HQ1]; reflexivity.
+Qed.
+
+Lemma unbond_loop_QI ids a a' :
+  QI (stk (la_chain a)) -> unbond_loop ids a = LDone a' -> QI (stk (la_chain a')).
+Proof.
+  revert a. induction ids as [|id rest IH]; intros a HQ; cbn [unbond_loop]; [intros [= <-]; exact HQ|].
+  destruct (vals (stk (la_chain a)) !! id) as [v|] eqn:Hv; [|discriminate].
+  destruct (status_eqb (v_status v) Bonded) eqn:Est; cbn [negb]; [|discriminate].
+  destruct (begin_unbonding (la_chain a) id v) as [c1 v1] eqn:Eb. apply IH. cbn [la_chain].
+  unfold begin_unbonding in Eb. inversion Eb; subst c1 v1. cbn.
+  set (t := now (la_chain a) + sp_unbonding_time (params (stk (la_chain a))) / 1000000000).
+  eapply (QI_enter_queue (stk (la_chain a)) _ id v (set_unbonding v (height (la_chain a)) t) t (height (la_chain a)) HQ Hv);
+    try reflexivity.
+  - destruct (v_status v); try discriminate; reflexivity.
+  - unfold set_index, set_validator, del_index. cbn. destruct (v_jailed v); reflexivity.
+  - unfold set_index, set_validator, del_index. cbn. destruct (v_jailed v); reflexivity.
+  - cbn. apply (qi_zero _ HQ id v Hv).
+Qed.
+
+Lemma apply_valset_updates_QI c c' upd : QI (stk c) -> apply_valset_updates c = EBOk c' upd -> QI (stk c').
+Proof.
+  intros HQ. unfold apply_valset_updates.
+  destruct (apply_loop _ _ _) as [a1|] eqn:E1; [|discriminate].
+  destruct (unbond_loop _ a1) as [a2|] eqn:E2; [|discriminate].
+  assert (H1 : QI (stk (la_chain a1))) by (eapply apply_loop_QI; [|exact E1]; exact HQ).
+  pose proof (unbond_loop_QI _ _ _ H1 E2) as H2.
+  destruct (if la_to_bonded a2 =? 0 then _ else _) as [b|]; [|discriminate]. intros [= <- _].
+  destruct (la_upd a2); [exact H2|]. eapply QI_ext; [| |exact H2]; reflexivity.
+Qed.
+
+Lemma apply_loop_halt keys maxv : forall a e, apply_loop keys maxv a = LHalt e -> e = 1.
+Proof.
+  induction keys as [|[p id] ks IH]; intros a e; cbn [apply_loop]; [discriminate|].
+  destruct (_ <=? _); [discriminate|]. destruct (vals _ !! id) as [v|]; [|intros [= <-]; reflexivity].
+  destruct (v_jailed v); [apply IH|]. destruct (_ =? 0); [discriminate|].
+  destruct (match v_status v with Bonded => _ | _ => _ end) as [[c1 v1] moved]. apply IH.
+Qed.
+
+Lemma unbond_loop_halt ids : forall a e, unbond_loop ids a = LHalt e -> e = 1 \/ e = 2.
+Proof.
+  induction ids as [|id rest IH]; intros a e; cbn [unbond_loop]; [discriminate|].
+  destruct (vals _ !! id); [|intros [= <-]; auto]. destruct (negb _); [intros [= <-]; auto|]. destruct (begin_unbonding _ _ _). apply IH.
+Qed.
+
+(* the staking EndBlocker never stops on the unbonding queue, and keeps the queue invariant *)
+Lemma staking_end_block_no_queue_halt c : QI (stk c) -> staking_end_block c <> EBHalt 3.
+Proof.
+  intros HQ. unfold staking_end_block. destruct (apply_valset_updates c) as [c1 u|e] eqn:E1.
+  - pose proof (apply_valset_updates_QI _ _ _ HQ E1) as HQ1. destruct (unbond_all_mature_ok c1 HQ1) as (c2 & -> & _). discriminate.
+  - intros [= ->]. revert E1. unfold apply_valset_updates.
+    destruct (apply_loop _ _ _) as [a1|e1] eqn:L1.
+    + destruct (unbond_loop _ a1) as [a2|e2] eqn:L2.
+      * destruct (if la_to_bonded a2 =? 0 then _ else _); discriminate.
+      * intros [= ->]. apply unbond_loop_halt in L2. lia.
+    + intros [= ->]. apply apply_loop_halt in L1. lia.
+Qed.
+
+Lemma staking_end_block_QI c c' upd : QI (stk c) -> staking_end_block c = EBOk c' upd -> QI (stk c').
+Proof.
+  intros HQ. unfold staking_end_block. destruct (apply_valset_updates c) as [c1 u|] eqn:E1; [|discriminate].
+  pose proof (apply_valset_updates_QI _ _ _ HQ E1) as HQ1. destruct (unbond_all_mature_ok c1 HQ1) as (c2 & E2 & HQ2). rewrite E2.
+  intros [= <- _]. exact HQ2.
+Qed.
+
+(* ---- histories ---- *)
+Lemma genesis_chain_QI g : QI (stk (genesis_chain g)).
+Proof.
+  constructor; cbn.
+  - intros t h ids id H. rewrite lookup_empty in H. discriminate.
+  - intros t h ids H. rewrite lookup_empty in H. discriminate.
+  - intros id v H. apply list_to_map_lookup_inv in H. apply in_map_iff in H as ([i t] & Heq & Hin). cbn in Heq. inversion Heq; subst. cbn. unfold dec_one. lia.
+Qed.
+
+Lemma init_world_QI g : QI (stk (w_chain (init_world g))).
+Proof.
+  pose proof (genesis_chain_QI g) as H0. unfold init_world. fold (genesis_chain g).
+  change (match apply_valset_updates (genesis_chain g) with
+          | EBOk c1 upd => _ | EBHalt e => _ end) with
+    (match apply_valset_updates (genesis_chain g) with
+     | EBHalt e => {| w_chain := genesis_chain g; w_comet := {| c_prev := None; c_cur := ∅; c_next := ∅ |}; w_halted := Some (HEndBlock e) |}
+     | EBOk c1 upd =>
+       {| w_chain := with_poa c1 {| pending := []; cached_power := last_total (stk c1); abs_changed := 0 |};
+          w_comet := {| c_prev := None; c_cur := apply_updates ∅ upd; c_next := apply_updates ∅ upd |}; w_halted := None |}
+     end).
+  destruct (apply_valset_updates (genesis_chain g)) as [c1 upd|e] eqn:E; cbn; [|exact H0].
+  eapply apply_valset_updates_QI; eauto.
+Qed.
+
+Lemma run_block_QI w b : CI (w_chain w) -> QI (stk (w_chain w)) -> QI (stk (w_chain (fst (run_block w b)))).
+Proof.
+  intros HCI HQ. unfold run_block. destruct (w_halted w); [exact HQ|].
+  set (c0 := with_clock (w_chain w) (height (w_chain w) + 1) (now (w_chain w) + b_dt b)).
+  assert (H0 : CI c0) by (apply CI_clock; exact HCI).
+  assert (Q0 : QI (stk c0)) by exact HQ.
+  destruct (begin_block c0 _ (b_absent b)) as [c1|e] eqn:Eb; [|exact Q0].
+  pose proof (begin_block_CI _ _ _ _ H0 Eb) as H1. pose proof (begin_block_QI _ _ _ _ H0 Q0 Eb) as Q1.
+  pose proof (deliver_txs_CI (b_txs b) c1 H1) as H2. pose proof (deliver_txs_QI (b_txs b) c1 H1 Q1) as Q2.
+  destruct (deliver_txs c1 (b_txs b)) as [c2 outs]. cbn in H2, Q2.
+  destruct (staking_end_block c2) as [c3 upd|e] eqn:Ee; [|exact Q2].
+  pose proof (staking_end_block_QI _ _ _ Q2 Ee) as Q3.
+  destruct (comet_apply _ upd); exact Q3.
+Qed.
+
+Theorem reachable_QI g bs : wf_genesis g -> QI (stk (w_chain (run_world (init_world g) bs))).
+Proof.
+  intros Hwf. pose proof (init_world_CI g Hwf) as HC. pose proof (init_world_QI g) as HQ.
+  revert HC HQ. generalize (init_world g). induction bs as [|b bs IH]; cbn; intros w HC HQ; [exact HQ|].
+  apply IH; [apply run_block_CI; exact HC|apply run_block_QI; assumption].
+Qed.
+
+(* no block of any history stops on the unbonding queue ("validator in the unbonding queue was not found",
+   "unexpected validator in unbonding queue", "attempting to remove a validator which still contains tokens") *)
+Theorem block_no_queue_halt w b :
+  CI (w_chain w) -> QI (stk (w_chain w)) -> w_halted w = None -> w_halted (fst (run_block w b)) <> Some (HEndBlock 3).
+Proof.
+  intros HCI HQ Hh. unfold run_block. rewrite Hh.
+  set (c0 := with_clock (w_chain w) (height (w_chain w) + 1) (now (w_chain w) + b_dt b)).
+  assert (H0 : CI c0) by (apply CI_clock; exact HCI).
+  assert (Q0 : QI (stk c0)) by exact HQ.
+  destruct (begin_block c0 _ (b_absent b)) as [c1|e] eqn:Eb; [|cbn; discriminate].
+  pose proof (begin_block_CI _ _ _ _ H0 Eb) as H1. pose proof (begin_block_QI _ _ _ _ H0 Q0 Eb) as Q1.
+  pose proof (deliver_txs_QI (b_txs b) c1 H1 Q1) as Q2.
+  destruct (deliver_txs c1 (b_txs b)) as [c2 outs]. cbn in Q2.
+  pose proof (staking_end_block_no_queue_halt c2 Q2) as Hn.
+  destruct (staking_end_block c2) as [c3 upd|e] eqn:Ee.
+  - destruct (comet_apply _ upd); cbn; discriminate.
+  - cbn. intros [= ->]. apply Hn. reflexivity.
+Qed.
+
+Theorem history_no_queue_halt g bs :
+  wf_genesis g -> w_halted (run_world (init_world g) bs) <> Some (HEndBlock 3).
+Proof.
+  intros Hwf. pose proof (init_world_CI g Hwf) as HC. pose proof (init_world_QI g) as HQ.
+  assert (H0 : w_halted (init_world g) <> Some (HEndBlock 3)).
+  { unfold init_world. fold (genesis_chain g).
+    destruct (apply_valset_updates (genesis_chain g)) as [c1 upd|e] eqn:E; cbn; [discriminate|].
+    intros [= ->]. revert E. unfold apply_valset_updates.
+    destruct (apply_loop _ _ _) as [a1|e1] eqn:L1.
+    - destruct (unbond_loop _ a1) as [a2|e2] eqn:L2.
+      + destruct (if la_to_bonded a2 =? 0 then _ else _); discriminate.
+      + intros [= ->]. apply unbond_loop_halt in L2. lia.
+    - intros [= ->]. apply apply_loop_halt in L1. lia. }
+  revert HC HQ H0. generalize (init_world g). induction bs as [|b bs IH]; cbn; intros w HC HQ H0; [exact H0|].
+  apply IH; [apply run_block_CI; exact HC|apply run_block_QI; assumption|].
+  destruct (w_halted w) as [r|] eqn:Hh.
+  - unfold run_block. rewrite Hh. cbn. rewrite Hh. exact H0.
+  - apply block_no_queue_halt; assumption.
+Qed.
